@@ -58,6 +58,7 @@ def cRegionInSpace := "130488|DCM"
 def cSourceImageForSegmentation := "121233|DCM"
 def cSourceSeriesForSegmentation := "121232|DCM"
 def cSource := "260753009|SCT"
+def cRwvm := "126100|DCM"
 
 /-! ## kind classification -/
 
@@ -299,6 +300,8 @@ structure Params where
   purpose : Option String
   ref : RoiRef
   template : Bool
+  ctxA : List GItem := []     -- observation context right after the tracking UID (session)
+  ctxB : List GItem := []     -- after the finding sites: algorithm identification, time point context, real world value map
 deriving Repr
 
 def srcKid (s : Ref) : Kid := ⟨cSource, "IMAGE", "SELECTED FROM", some s⟩
@@ -330,10 +333,12 @@ def optItem (name vt rel : String) : Option String → List GItem
 def mkItems (p : Params) : List GItem :=
   [{ name := cTrackingId, vt := "TEXT", rel := "HAS OBS CONTEXT", value := p.trackingId },
    { name := cTrackingUid, vt := "UIDREF", rel := "HAS OBS CONTEXT", value := p.trackingUid }] ++
+  p.ctxA ++
   optItem cFindingCategory "CODE" "CONTAINS" p.findingCategory ++
   optItem cFinding "CODE" "CONTAINS" p.findingType ++
   optItem cMethod "CODE" "CONTAINS" p.method ++
   p.sites.map (fun s => { name := cFindingSite, vt := "CODE", rel := "HAS CONCEPT MOD", value := s }) ++
+  p.ctxB ++
   p.measurements.map (fun x => { name := x.1, vt := "NUM", rel := "CONTAINS", value := x.2 }) ++
   p.evaluations.map (fun x => { name := x.1, vt := "CODE", rel := "CONTAINS", value := x.2 }) ++
   optItem cGeometricPurpose "CODE" "CONTAINS" p.purpose ++
@@ -341,6 +346,16 @@ def mkItems (p : Params) : List GItem :=
 
 def mkGroup (p : Params) : Group :=
   { templateId := if p.template then some p.kind.templateId else none, items := mkItems p }
+
+/-- names the library gives to the fixed items of a group container and to ROI references -/
+def fixedNames : List String :=
+  [cTrackingId, cTrackingUid, cFindingCategory, cFinding, cMethod, cFindingSite, cGeometricPurpose, cImageRegion, cVolumeSurface,
+   cReferencedSegment, cReferencedSegmentationFrame, cRegionInSpace]
+
+/-- executable form of the hypothesis on the optional context items (`ContextItemOK` in the proofs) -/
+def contextItemOK (it : GItem) : Bool :=
+  (it.vt == "TEXT" || ((it.vt == "CODE" || it.vt == "NUM") && it.rel == "HAS OBS CONTEXT") ||
+   (it.vt == "COMPOSITE" && it.name == cRwvm)) && !fixedNames.contains it.name
 
 /-- `find_content_items(root_item, name=…, value_type=…)` without recursion: the values of the matching items -/
 def valuesOf (g : Group) (name vt : String) : List String :=
@@ -353,16 +368,17 @@ def findingCategoryOf (g : Group) : Option String := (valuesOf g cFindingCategor
 def methodOf (g : Group) : Option String := (valuesOf g cMethod "CODE").head?
 def findingSitesOf (g : Group) : List String := valuesOf g cFindingSite "CODE"
 
-/-- `get_measurements()` -/
+/-- `get_measurements()`: NUM items with relationship CONTAINS -/
 def measurementsOf (g : Group) : List (String × String) :=
-  (g.items.filter (fun it => it.vt == "NUM")).map (fun it => (it.name, it.value))
+  (g.items.filter (fun it => it.vt == "NUM" && it.rel == "CONTAINS")).map (fun it => (it.name, it.value))
 
 /-- names of CODE items of the container that are not qualitative evaluations (`get_qualitative_evaluations`) -/
 def reservedCodeNames : List String := [cFinding, cFindingSite, cMethod, cFindingCategory, cGeometricPurpose]
 
 /-- `get_qualitative_evaluations()` -/
 def evaluationsOf (g : Group) : List (String × String) :=
-  (g.items.filter (fun it => it.vt == "CODE" && !reservedCodeNames.contains it.name)).map (fun it => (it.name, it.value))
+  (g.items.filter (fun it => it.vt == "CODE" && it.rel == "CONTAINS" && !reservedCodeNames.contains it.name)).map
+    (fun it => (it.name, it.value))
 
 /-- `reference_type` of the two ROI group classes: the first item whose name is an allowed reference type
 (set iteration order does not matter: at most one allowed name can equal the item's name) -/
